@@ -93,6 +93,10 @@ def run_case(case):
     d = _dir(case["ct"], case["phi"])
     step = case["step"]
     ex, L, jumps = prem.chord(shells, R, ep, d)
+    other = [m for m in ("PREM", "CoreMantleCrustModel") if m != case["model"]][0]
+    if rng.random() < 0.6:
+        # the other Earth model asked first for the very same chord (same arguments, same process) must leave no trace
+        getattr(em, other)().slant_depth(ep, d * case["scale"], step=step)
     val = float(earth.slant_depth(ep, d * case["scale"], step=step))
     sample = {"model": case["model"], "endpoint": case["endpoint"], "direction": d.tolist(), "step": step, "chord_m": L,
               "slant_depth": val, "oracle": ex}
